@@ -86,7 +86,7 @@ def run(module, cfg_text=None, cfg_file=None, workdir=None, workers=16, timeout=
     cmd = ['tlc', '-workers', str(workers), '-metadir', meta, '-noGenerateSpecTE',
            '-config', cfg_name] + list(extra) + [module + '.tla']
     e = dict(os.environ)
-    jto = '-Xmx%s -Xss256m' % heap
+    jto = '-Xmx%s -Xss256m -Djava.io.tmpdir=%s' % (heap, wd)      # TLC's own temporary directories go with the workdir
     if deque:
         jto += ' -Dtlc2.tool.queue.IStateQueue=StateDeque'
     e['JAVA_TOOL_OPTIONS'] = jto
